@@ -109,7 +109,7 @@ package modbus
 //@   modifies[C08] nothing
 //@   modifies streamPos, reads, lastN, lastErr, lastBuf, hookReads, writes, bwCount, bwBuf, ctxErr, faults, flushes, timerNs, timers, sleeps, timerWrites, timerSleeps, writeFaults
 //@   ensures[C08.timer] timers <= old(timers) + 1 && (timers > old(timers) ==> timerNs == int(c.readTimeout))
-//@   ensures[C07.timer,C08.timer] timers > old(timers) ==> timerWrites == old(writes) + 1
+//@   ensures[C07.timer,C08.timer] timers > old(timers) ==> writes > old(writes) && timerWrites == writes
 //@   ensures[C08.fault] writeFaults > old(writeFaults) ==> err != nil && dyntype(err) == *ClientError && reads == old(reads)
 //@   ensures[C08.oversize] err == nil && reads > old(reads) ==> lastN < len(lastBuf)
 //@   fresh[C07] res
@@ -289,7 +289,7 @@ package modbus
 //@   modifies[C08] nothing
 //@   modifies streamPos, reads, lastN, lastErr, lastBuf, hookReads, writes, bwCount, bwBuf, ctxErr, faults, flushes, timerNs, timers, sleeps, timerWrites, timerSleeps, writeFaults
 //@   ensures[C08.timer] timers <= old(timers) + 1 && (timers > old(timers) ==> timerNs == int(c.readTimeout))
-//@   ensures[C07.timer,C08.timer] timers > old(timers) ==> timerWrites == old(writes) + 1 && timerSleeps == old(sleeps) + 1
+//@   ensures[C07.timer,C08.timer] timers > old(timers) ==> writes > old(writes) && timerWrites == writes && timerSleeps == sleeps
 //@   ensures[C08.fault] writeFaults > old(writeFaults) ==> err != nil && dyntype(err) == *ClientError && reads == old(reads)
 //@   ensures[C08.oversize] err == nil && reads > old(reads) ==> lastN < len(lastBuf)
 //@   fresh[C07] res
